@@ -42,6 +42,10 @@ UStep(st, e, t) ==
       [] e.e = "recfg" ->
            Good([st EXCEPT !.cons[e.k].cob = e.cob, !.cons[e.k].enabled = e.enabled, !.cons[e.k].rtr = e.rtr,
                            !.cons[e.k].subs = IF e.enabled THEN st.cons[e.k].subs \cup {e.cob} ELSE st.cons[e.k].subs])
+      [] e.e = "pecho" ->      \* a frame on the producing map's own COB-ID: taken iff the map listens (enabled when subscribed)
+           LET new == IF t.psub THEN e.d ELSE st.pframe IN
+           IF e.after # new THEN Bad(st, "producer map after a frame on its own COB-ID is wrong")
+           ELSE Good([st EXCEPT !.pframe = new])
       [] e.e = "pen" -> Good(st)      \* the producing map's enabled flag: transmit() does not depend on it
       [] e.e = "remap" ->
            LET new == [st.cons EXCEPT ![e.k].frame = Zeros(FrameLen(t.lay))] IN
